@@ -31,8 +31,14 @@
 (* mixed:     concatenation of the flattened PHYSICAL values of the        *)
 (*            sub-elements in order (nested), each computed from its own   *)
 (*            slice of the flattened REFERENCE value;                      *)
-(* symmetric: the physical tensor has block shape n x n; block (i, j) is   *)
-(*            the push-forward of the sub-element symmetry[i][j].          *)
+(* symmetric: the element is DECLARED by a dictionary {block component ->  *)
+(*            sub-element}; a dictionary is written down in some order, so *)
+(*            the model keeps it as the ordered list of its entries        *)
+(*            (e.symmetry, the dict as written).  The physical tensor has  *)
+(*            the block shape spanned by the keys (any rank: n, n x n,     *)
+(*            n x m, n x n x n); block c is the push-forward of the        *)
+(*            sub-element that the dictionary gives for the KEY c.  The    *)
+(*            order of the entries is not observable (DeclOrderIrrelevant).*)
 (*                                                                         *)
 (* Tensors are flat row-major sequences of exact rationals (CQ.tla's Q     *)
 (* layer; everything here is real) together with a shape.                  *)
@@ -158,9 +164,24 @@ L(kind, shape) == [kind |-> kind, refshape |-> shape, subs |-> << >>, symmetry |
 Mix(subs) == [kind |-> "mixed",
               refshape |-> << SumInt([s \in 1..Len(subs) |-> RefSize(subs[s])]) >>,
               subs |-> subs, symmetry |-> << >>]
+\* symm: the symmetry dictionary as written, << [comp |-> <<i, j>>, sub |-> s], ... >> (1-based)
 Sym(symm, subs) == [kind |-> "symmetric",
                     refshape |-> << SumInt([s \in 1..Len(subs) |-> RefSize(subs[s])]) >>,
                     subs |-> subs, symmetry |-> symm]
+
+\* row-major (un)flattening of block components; k0 is 0-based, components are 1-based
+RECURSIVE Unflat(_, _)
+Unflat(bs, k0) == IF Len(bs) = 0 THEN << >>
+                  ELSE LET n == ProdInt(Tail(bs)) IN << k0 \div n + 1 >> \o Unflat(Tail(bs), k0 % n)
+GridSeq(bs) == [k \in 1..ProdInt(bs) |-> Unflat(bs, k - 1)]
+MaxOf(S) == CHOOSE x \in S : \A y \in S : y <= x
+\* the block shape spanned by the declared keys, and the dictionary lookup
+SymRank(e) == Len(e.symmetry[1].comp)
+BlockShape(e) == LET D == e.symmetry
+                 IN [a \in 1..SymRank(e) |-> MaxOf({D[d].comp[a] : d \in 1..Len(D)})] \o << >>
+SubAt(e, c) == LET D == e.symmetry IN D[CHOOSE d \in 1..Len(D) : D[d].comp = c].sub
+NBlocks(e) == ProdInt(BlockShape(e))
+SymAt(e, k) == SubAt(e, Unflat(BlockShape(e), k - 1))        \* sub-element of the k-th block, row-major
 
 \* physical value shape
 RECURSIVE PhysShape(_, _)
@@ -169,7 +190,7 @@ PhysShape(e, m) ==
     [] e.kind \in VecKinds   -> ButLast(e.refshape, 1) \o << m.g >>
     [] e.kind \in TenKinds   -> ButLast(e.refshape, 2) \o << m.g, m.g >>
     [] e.kind = "mixed"      -> << SumInt([s \in 1..Len(e.subs) |-> ProdInt(PhysShape(e.subs[s], m))]) >>
-    [] e.kind = "symmetric"  -> << Len(e.symmetry), Len(e.symmetry[1]) >> \o PhysShape(e.subs[1], m)
+    [] e.kind = "symmetric"  -> BlockShape(e) \o PhysShape(e.subs[1], m)
 PhysSize(e, m) == ProdInt(PhysShape(e, m))
 
 \* which elements make sense on the cell map m (what ufl documents as valid input)
@@ -184,13 +205,17 @@ Legal(e, m) ==
                                 /\ \A s \in 1..Len(e.subs) : Legal(e.subs[s], m)
                                 /\ e.refshape = << SumInt([s \in 1..Len(e.subs) |-> RefSize(e.subs[s])]) >>
     [] e.kind = "symmetric"  ->
-         LET n == Len(e.symmetry) IN
-         /\ n >= 1 /\ \A i \in 1..n : Len(e.symmetry[i]) = n
+         LET D == e.symmetry  n == Len(e.symmetry) IN
+         /\ n >= 1 /\ Len(D[1].comp) >= 1
+         /\ \A d \in 1..n : /\ Len(D[d].comp) = Len(D[1].comp)
+                            /\ \A a \in 1..Len(D[d].comp) : D[d].comp[a] >= 1
+         /\ \A d1, d2 \in 1..n : D[d1].comp = D[d2].comp => d1 = d2  \* a dictionary: the keys are distinct
+         /\ {D[d].comp : d \in 1..n} = {Unflat(BlockShape(e), k - 1) : k \in 1..NBlocks(e)}  \* every block is declared
          /\ \A s \in 1..Len(e.subs) :
               /\ Legal(e.subs[s], m)
               /\ e.subs[s].refshape = e.subs[1].refshape               \* required by SymmetricPullback
               /\ PhysShape(e.subs[s], m) = PhysShape(e.subs[1], m)     \* the blocks form a tensor
-         /\ {e.symmetry[i][j] : i \in 1..n, j \in 1..n} = 1..Len(e.subs)
+         /\ {D[d].sub : d \in 1..n} = 1..Len(e.subs)
          /\ e.refshape = << SumInt([s \in 1..Len(e.subs) |-> RefSize(e.subs[s])]) >>
 
 \* ---------------------------------------------------------------------------------------------
@@ -209,7 +234,6 @@ AsMat(v, rows, cols) == [a \in 1..rows |-> [b \in 1..cols |-> v[(a - 1) * cols +
 
 RefOff(e, s) == SumInt([q \in 1..(s - 1) |-> RefSize(e.subs[q])])
 RefSlice(e, r, s) == SubSeq(r, RefOff(e, s) + 1, RefOff(e, s) + RefSize(e.subs[s]))
-SymAt(e, k) == LET n == Len(e.symmetry) IN e.symmetry[(k - 1) \div n + 1][((k - 1) % n) + 1]
 
 VecMap(kind, m, v) == IF kind = "covariant" THEN CovVec(m, v) ELSE ContraVec(m, v)
 TenMap(kind, m, R) == CASE kind = "dcov" -> DCov(m, R)
@@ -228,8 +252,10 @@ Push(e, m, r) ==
     [] e.kind = "mixed" ->
          Concat([s \in 1..Len(e.subs) |-> Push(e.subs[s], m, RefSlice(e, r, s))])
     [] e.kind = "symmetric" ->
-         LET n == Len(e.symmetry)
-         IN Concat([k \in 1..(n * n) |-> Push(e.subs[SymAt(e, k)], m, RefSlice(e, r, SymAt(e, k)))])
+         \* block by block in row-major order of the block COMPONENTS; each block looks its sub-element up by key
+         LET bs == BlockShape(e)
+             S == [k \in 1..ProdInt(bs) |-> SubAt(e, Unflat(bs, k - 1))] \o << >>
+         IN Concat([k \in 1..Len(S) |-> Push(e.subs[S[k]], m, RefSlice(e, r, S[k]))])
 
 \* ---------------------------------------------------------------------------------------------
 \* the universes
